@@ -109,6 +109,7 @@ impl World for RingBufWorld {
 fn run_b<B: RingBuf<Item = Tagged>>(buf: B, cap: usize, ops: &[Op], run: &mut Run) {
     tls::reset_history();
     payload::reset();
+    run.panic_prop = Some("C19");
     let mut buf = buf;
     let mut model: VecDeque<u16> = VecDeque::new();
     let mut held: Vec<Tagged> = Vec::with_capacity(4);
@@ -229,20 +230,26 @@ fn run_b<B: RingBuf<Item = Tagged>>(buf: B, cap: usize, ops: &[Op], run: &mut Ru
         let d = payload::drops(*id);
         if d != 1 {
             run.violate("C19", "drop-stored", format!("dropping the buffer dropped the stored element v{} {} times", id, d));
-            return;
+            if run.failed() {
+                return;
+            }
         }
     }
     for id in held_ids {
         if payload::drops(id) != 0 {
             run.violate("C19", "drop-popped", format!("dropping the buffer dropped v{} which had been popped", id));
-            return;
+            if run.failed() {
+                return;
+            }
         }
     }
     held.clear();
     for id in 0..payload::ids() as u16 {
         if payload::drops(id) != 1 {
             run.violate("C19", "drop-count", format!("v{} was dropped {} times in total", id, payload::drops(id)));
-            return;
+            if run.failed() {
+                return;
+            }
         }
     }
 }
